@@ -205,3 +205,58 @@ Fixpoint var_fields_ok (i : nat) (fixed : bool) (fs : list dbfield) : bool :=
       && (if known_type f then var_fields_ok (S i) (fixed && fixed_size f) t else true)
   end.
 Definition var_layout_def (d : dbdef) : bool := var_fields_ok 0 true (d_fields d).
+
+(* ---- definitions carrying an INDIRECT_LOOKUP field ----
+   The value of such a field is looked up under the pair (bits of the field named by
+   LookupIndirectEnumerationFieldOrder, own bits). The specification above reads the other field's bits
+   at its database position, so the class asks: every field has a known type, a database BitOffset and
+   BitLength and is not a variable-length string; Order = place in the list; exactly one
+   INDIRECT_LOOKUP field; it names a LATER field (the generated code resolves the value when it reaches
+   that field; a reference backwards is never resolved by the template) whose raw value is its bits
+   (LOOKUP, BITLOOKUP, RESERVED, SPARE). *)
+Definition sint_type (f : dbfield) : bool :=
+  is_t f T_LOOKUP || is_t f T_BITLOOKUP || is_t f T_RESERVED || is_t f T_SPARE.
+
+Definition ifield_ok (i : nat) (f : dbfield) : bool :=
+  (f_order f =? Z.of_nat i + 1) && known_type f
+  && negb (is_t f T_STRING_LAU) && negb (is_t f T_STRING_LZ)
+  && match f_bitoff f, f_bitlen f with Some off, Some len => (0 <=? off) && (1 <=? len) | _, _ => false end.
+
+Fixpoint after_ok (i : nat) (fs : list dbfield) : bool :=
+  match fs with
+  | [] => true
+  | f :: t => ifield_ok i f && negb (is_t f T_INDIRECT) && after_ok (S i) t
+  end.
+
+Fixpoint before_ok (all : list dbfield) (i : nat) (fs : list dbfield) : bool :=
+  match fs with
+  | [] => false            (* no INDIRECT_LOOKUP field: the definition belongs to var_layout_def *)
+  | f :: t =>
+      ifield_ok i f &&
+      if is_t f T_INDIRECT then
+        match f_indirect f, f_indirect_order f with
+        | Some _, Some k =>
+            (Z.of_nat i + 1 <? k)
+            && match nth_error all (Z.to_nat (k - 1)) with
+               | Some r => sint_type r
+                           && match f_bitoff r, f_bitlen r with Some _, Some _ => true | _, _ => false end
+               | None => false
+               end
+            && after_ok (S i) t
+        | _, _ => false
+        end
+      else before_ok all (S i) t
+  end.
+Definition indirect_def (d : dbdef) : bool := before_ok (d_fields d) 0 (d_fields d).
+
+(* the two-key table every INDIRECT_LOOKUP field names exists *)
+Definition indirect_tables_ok (LI : ilookups) (d : dbdef) : bool :=
+  forallb (fun f => if is_t f T_INDIRECT
+                    then match f_indirect f with
+                         | Some t => match find_tbl t LI with Some _ => true | None => false end
+                         | None => false
+                         end
+                    else true) (d_fields d).
+
+(* the class of the theorem def_ok_sound_var *)
+Definition var_def (d : dbdef) : bool := var_layout_def d || indirect_def d.
